@@ -150,14 +150,18 @@ fn network_signatures() -> Vec<(&'static str, TypeSpec, TypeSpec)> {
 }
 
 /// Placeholder implementation for an IO builtin registered for its signature only (e.g. by the
-/// language server, which type-checks but never executes). It is never called — executing hosts
-/// register real implementations against these signatures instead.
+/// language server, which type-checks but never executes). Hosts that run effects register real
+/// implementations against these signatures instead; a host that executes programs without
+/// doing so (the web worker) gets a runtime error in the calling process, not a panic that
+/// takes the worker and every process on it down.
 fn unimplemented_builtin<E: Effect>(
     _: ProcessId,
     _: &Value,
     _: &mut Executor<E>,
 ) -> Result<BuiltinResult<E>, Error> {
-    unreachable!("IO builtin registered for its signature only; no implementation in this host")
+    Err(Error::InvalidArgument(
+        "IO builtin registered for its signature only; no implementation in this host".to_string(),
+    ))
 }
 
 /// Register the IO builtins' type signatures (no implementations) — so code using `__file_read__`,
